@@ -43,13 +43,13 @@ def member_map(py7zr, raw, password=None):
 def sessions(py7zr, R, tier):
     """yield (description, initial bytes, ops, old members, new members, password)"""
     chains = [None, [{"id": 0x33}], [{"id": 0x21, "preset": 1}], [{"id": 0x32}]]
-    n = 10 if tier == "quick" else 60
+    n = 16 if tier == "quick" else 96
     for i in range(n):
         pw = "pw" if i % 5 == 4 else None
         hdr = [None, "raw", "encrypted" if pw else None][i % 3]
-        # ---- create
+        # ---- create  (member count i % 4, chain (i // 4 + i) % 4: every member count meets every chain, the default one included)
         f = crash.RecordingFile()
-        z = py7zr.SevenZipFile(f, "w", filters=chains[i % 4] if not pw else None, password=pw)
+        z = py7zr.SevenZipFile(f, "w", filters=chains[(i // 4 + i) % 4] if not pw else None, password=pw)
         if hdr == "raw":
             z.set_encoded_header_mode(False)
         elif hdr == "encrypted":
@@ -67,7 +67,7 @@ def sessions(py7zr, R, tier):
         base = created
         for a in range(1 + i % 2):
             f2 = crash.RecordingFile(base)
-            z = py7zr.SevenZipFile(f2, "a", filters=chains[(i + a + 1) % 4] if not pw else None, password=pw)
+            z = py7zr.SevenZipFile(f2, "a", filters=chains[(i // 2 + a) % 4] if not pw else None, password=pw)
             if (i + a) % 3 == 1:
                 z.set_encoded_header_mode(False)
             kind = (i + a) % 4
@@ -84,6 +84,24 @@ def sessions(py7zr, R, tier):
             newm = member_map(py7zr, f2.getvalue(), pw)
             yield (f"append#{i}.{a} kind={kind} pw={bool(pw)}", base, list(f2.ops), old, newm, pw)
             base = f2.getvalue()
+
+
+def small_sessions(py7zr):
+    """one-member archives with the default chain (their encoded header is tiny) and appends of a few incompressible bytes with the
+    default chain (the new data starts with an LZMA2 'uncompressed chunk' marker and lands where the old packed header was)"""
+    for names, add in ((["a"], [("n", b"new")]), (["a.txt"], [("notes.txt", b"\x01\x00"), ("z", b"\x00")]), (["a.txt", "b.txt"], [("n", b"new")])):
+        f = crash.RecordingFile()
+        z = py7zr.SevenZipFile(f, "w")
+        for nm in names:
+            z.writestr(b"content of " + nm.encode(), nm)
+        z.close()
+        base = f.getvalue()
+        f2 = crash.RecordingFile(base)
+        z = py7zr.SevenZipFile(f2, "a")
+        for nm, data in add:
+            z.writestr(data, nm)
+        z.close()
+        yield (f"append-small#{names}", base, list(f2.ops), member_map(py7zr, base), member_map(py7zr, f2.getvalue()), None)
 
 
 def check_order(desc, initial, ops, rep):
@@ -116,24 +134,21 @@ def run(tier, rep, ev):
     for (ap, no, nn, en, oe) in [("FALSE", 0, 2, "TRUE", "FALSE"), ("FALSE", 0, 0, "FALSE", "FALSE"), ("FALSE", 0, 1, "FALSE", "FALSE"),
                                  ("TRUE", 2, 1, "TRUE", "TRUE"), ("TRUE", 1, 0, "TRUE", "TRUE"), ("TRUE", 2, 2, "FALSE", "TRUE"),
                                  ("TRUE", 3, 1, "TRUE", "FALSE"), ("TRUE", 0, 2, "TRUE", "TRUE"), ("TRUE", 2, 0, "FALSE", "FALSE")]:
-        # HeaderCrc = FALSE is what the code does: UnpackInfo.write does not emit the folder CRC of the encoded header
-        r = tlc.run("Crash", cfg_text=CFG % (ap, no, nn, en, oe, "FALSE"), workers=4)
+        # HeaderCrc = TRUE is what the repaired code does: the folder CRC of the encoded header is written (and checked by the reader)
+        r = tlc.run("Crash", cfg_text=CFG % (ap, no, nn, en, oe, "TRUE"), workers=4)
         ev.add_tlc(r, f"Crash(append={ap},old={no},new={nn},enc={en},oldenc={oe})")
         if not r.ok:
-            if ap == "TRUE" and nn == 0 and en == "TRUE" and oe == "TRUE":
-                # model-level counterexample: an append session that adds no data rewrites the packed header in place; a crash right
-                # after it leaves the old record describing the new packed header and no checksum covers the decoded header.
-                # Never an alarm by itself: the scenario is replayed below (empty and directory-only append sessions).
-                ev.cov["model_counterexample_replayed"] = "append without new data on an encoded header: kinds 0 and 1 of the recorded sessions"
-                rep.note_drift("Crash.tla admits 'old record + new packed header' after an append without data (no checksum on the decoded header); "
-                               "the real sessions of that shape are replayed byte by byte below")
-            else:
-                rep.note_drift(f"Crash model violates {r.violated} for append={ap} old={no} new={nn} enc={en}")
-    rn = tlc.run("Crash", cfg_text=CFG % ("TRUE", 1, 0, "TRUE", "TRUE", "TRUE"), workers=4)
-    ev.cov["with_header_crc"] = {"cfg": "same scenario with a CRC on the decoded header", "holds": rn.ok}
+            rep.note_drift(f"Crash model violates {r.violated} for append={ap} old={no} new={nn} enc={en}")
+    # negative control: the tree before the repair stored no CRC of the decoded header - an append without new data rewrites the packed
+    # header in place, and a crash right after it leaves the old record describing a packed stream that decodes to another header
+    rn = tlc.run("Crash", cfg_text=CFG % ("TRUE", 1, 0, "TRUE", "TRUE", "FALSE"), workers=4)
+    ev.cov["negative_control"] = {"cfg": "no CRC on the decoded header (tree before the repair)", "violated": rn.violated or "NOTHING"}
+    if rn.ok:
+        raise MachineryError("negative control failed: without a header CRC the in-place header rewrite is crash safe in the model")
     total = 0
     step = 1
-    for desc, initial, ops, old, new, pw in sessions(py7zr, R, tier):
+    import itertools
+    for desc, initial, ops, old, new, pw in itertools.chain(sessions(py7zr, R, tier), small_sessions(py7zr)):
         check_order(desc, initial, ops, rep)
         cases, labels = [], []
         for label, img in crash.images(initial, ops, step=step):
